@@ -21,6 +21,7 @@ func main() {
 	probe.Init()
 	for _, cs := range probe.Plan() {
 		custom, sc := cs.Custom, cs.Sc
+		probe.SetCase(cs)
 		r := probe.New(key, sc, false) // the handler's error goes to gear, not back to the middleware
 		opts := []sgear.Option{sgear.WithResourceExtractor(func(*gear.Context) string { return r.Res })}
 		if custom {
